@@ -21,7 +21,8 @@ RULE = ("cases = from_port / from_ports with port widths 8/16/32, sample values 
 TRUSTED = ["translator (Gen/PortGen.v incl. the while loop as a fuelled Fixpoint)",
            "Model/Port.v models byteswap/view/unpackbits by their value-level meaning; compared with the real pipeline on every input form"]
 ASSUMPTIONS = ["np.unpackbits / byteswap / view(uint8) behave as documented (modelled at value level)"]
-PARTIAL = ["byte-level pipeline (byte order, strides) is covered by the correspondence, not by a theorem"]
+PARTIAL = ["strides are NumPy's business (np.ascontiguousarray): covered by the correspondence only; the byte pipeline itself is Model/PortBytes.v, "
+           "proved equal to the value-level rows (C06_bytes, C06_byte_order) and tied to NumPy's memory images by the PortMem cases"]
 EXHAUSTIVE = {"quick": False, "thorough": True}
 
 
@@ -84,6 +85,16 @@ def _build(c, src=None):
 
 def run_impl(c):
     import numpy as np
+    if c["k"] == "mem":
+        from nitypes.waveform._digital._port import port_to_line_data
+        k, v = c["bytes"], c["v"]
+        le = np.array([v], dtype="<u%d" % k)
+        be = np.array([v], dtype=">u%d" % k)
+        order = "big" if c["big"] else "little"
+        full = (1 << (8 * k)) - 1
+        return {"mem_le": list(le.tobytes()), "mem_be": list(be.tobytes()),
+                "row_le": [int(x) for x in port_to_line_data(le, full, order)[0]],
+                "row_be": [int(x) for x in port_to_line_data(be, full, order)[0]]}
     if c["k"] == "dtype":
         from nitypes.waveform._digital._port import get_port_dtype
         return vf.try_impl(lambda: get_port_dtype(c["mask"]).itemsize * 8)
@@ -109,6 +120,9 @@ def run_impl(c):
 
 
 def to_coq(c, r):
+    if c["k"] == "mem":
+        return "PortMem %s %s %s %s %s %s %s" % (vf.natc(c["bytes"]), vf.boolc(c["big"]), vf.zc(c["v"]), vf.listc(r["mem_le"]),
+                                                   vf.listc(r["mem_be"]), vf.listc(r["row_le"]), vf.listc(r["row_be"]))
     if c["k"] == "dtype":
         return "PortDtype %s %s" % (vf.zc(c["mask"]), vf.resc(r))
     is_array = c["form"] not in ("list", "ports_list")
@@ -133,6 +147,9 @@ def _mask_class(m, w):
 
 
 def sig(c, r):
+    if c["k"] == "mem":
+        v = c["v"]
+        return "mem|%d|%s|%s" % (c["bytes"], c["big"], "0" if v == 0 else "pow2" if v & (v - 1) == 0 else "hi" if v >> (8 * c["bytes"] - 1) else "mid"), True
     if c["k"] == "dtype":
         return "dtype|%d|%s" % (min(c["mask"].bit_length(), 40) if c["mask"] >= 0 else -1, r.get("exc", "ok")), True
     win = ("s" if "start" in c else "") + ("c" if "count" in c else "")
@@ -171,6 +188,12 @@ def gen_cases(rng, tier):
     cases = []
     for m in [0, 1, 255, 256, 65535, 65536, (1 << 32) - 1, 1 << 32, (1 << 40), 0xDEADBEEF, -1, -256, 0x100, 0xF0]:
         cases.append({"k": "dtype", "mask": m})
+    # memory images: the bytes NumPy holds for one value in either byte order, and the row the pipeline makes of them
+    for _ in range(300 if not big_tier else 5000):
+        kb = rng.choice([1, 2, 4])
+        w = 8 * kb
+        v = rng.choice([0, (1 << w) - 1, 1 << rng.randrange(w), rng.randrange(1 << w), rng.randrange(1 << w)])
+        cases.append({"k": "mem", "bytes": kb, "big": rng.random() < 0.5, "v": v})
     forms = ["list", "native", "swapped", "strided", "ports_c", "ports_f", "ports_list"]
     for _ in range(2500 if not big_tier else 30000):
         w = rng.choice([8, 16, 32])
